@@ -170,7 +170,11 @@ pub fn tmpl_tqcmap_iter_map_unzip<A, B, F: FnMut((&ReplicaTimeout, &Signers)) ->
 NET_LEAVES = r"""
 // std_conv.rs: ProtoFmt for std::net::SocketAddr and time::Utc -- decided by the Kani group std_conv on the real crate, assumed here
 #[verifier::external_body] pub struct SocketAddr { _p: u8 }
-#[verifier::external_body] pub struct Utc { _p: u8 }
+#[verifier::external_body] #[derive(Clone, Copy)] pub struct Utc { _p: u8 }
+// what code may do with a time::Utc (derive(Ord), the epoch constant): enough for changed code to type-check (A1)
+impl Utc { #[verifier::external_body] pub fn max(self, other: Utc) -> (r: Utc) ensures r == self || r == other { unimplemented!() }
+           #[verifier::external_body] pub fn min(self, other: Utc) -> (r: Utc) ensures r == self || r == other { unimplemented!() } }
+#[verifier::external_body] pub fn utc_unix_epoch() -> Utc { unimplemented!() }      // time::UNIX_EPOCH
 impl ProtoFmt for SocketAddr {
     type Proto = proto::std::SocketAddr;
     uninterp spec fn enc(&self) -> proto::std::SocketAddr;
@@ -601,6 +605,7 @@ def build(repo):
     U = Unit("conv", ["C09"], desc="ProtoFmt conversions round-trip", uses=T.USES + "\nuse std::sync::Arc;")
     U.repo = repo
     T.add_base_types(U)
+    U.tail_subs = list(U.tail_subs) + [("time::UNIX_EPOCH", "utc_unix_epoch()", None)]
     # message types (definitions only)
     U.item(Q.F_CONS2, "struct Signers")
     U.item(Q.F_RC, "struct ReplicaCommit", attrs=T.D_CLONE_EQ)
